@@ -49,7 +49,15 @@ META = dict(
          "and advOk, termination holds on EVERY input with decidable hypotheses only (acyclic_terminates_checked, "
          "entry_points_terminate_checked); exG_advancing instantiates it for a concrete 4-node grammar. The inner loops' "
          "private budgets (len+2) are shown never to run out (positions strictly increase and stay <= len+1). PARTIAL: "
-         "recursive grammars (Forward cycles) are outside the termination theorem, Advancing is a semantic hypothesis "
+         "RECURSIVE grammars (PPProofs/Props/C06Rec.lean, lemmas PPProofs/Lemmas/ParseTermRec.lean): recursive_terminates_partial "
+         "- for node tables passing the executable test leftRankOk g r k R (every reference that can be entered without prior "
+         "consumption - an And's operands up to and including the first that `consumes`, all alternatives, wrapper children, "
+         "Forward targets, stop_on, ignorables - goes to smaller rank; operands after a consuming operand may refer anywhere, "
+         "so Forward cycles through a consuming step are allowed; no SkipTo; StringStart without ignorables), under Advancing, "
+         "_parse does not answer hang for every fuel > (len+1-loc)*(R+1) + r id (lexicographic induction on remaining input "
+         "and rank); recursive_terminates_checked_partial with advOk. PARTIAL: "
+         "tables with SkipTo and left-recursive tables are outside the recursive theorem (the latter rightly), the harness "
+         "evaluates only the acyclic tests on extracted grammars (leftRankOk needs a rank, not computed), Advancing is a semantic hypothesis "
          "(advOk decides only a sufficient fragment: SkipTo, Opt, lookaheads, anchors as bodies are not recognised), the "
          "theorem is about the "
          "model (`hang` = where the code would loop), tied to the code by the correspondence stream; termination of the real "
@@ -83,6 +91,7 @@ THEOREMS = [
     "PP.Parse.consumes_sound", "PP.Parse.advancing_of_advOk", "PP.Parse.acyclic_terminates_checked",
     "PP.Parse.entry_points_terminate_checked", "PP.Parse.acyclic_terminates_depth",
     "PP.Parse.entry_points_terminate_depth",
+    "PP.Parse.recursive_terminates_partial", "PP.Parse.recursive_terminates_checked_partial",
 ]
 
 BOUNDARY = ["", " ", "\t", "\n", " \n ", "\r\n", "a", "ab", "ab ", " ab", "a\tb", "é", "aé b", "ab\n", "ab\n\n", "b", "a,", ",", "a\n b"]
@@ -358,7 +367,7 @@ def known_witnesses(ctx, pp):
 
 def run(ctx):
     pp = common.import_pyparsing()
-    ctx.proof_leg("PPProofs.Props.C06", THEOREMS, extra_modules=("PPProofs.Props.C06Term",))
+    ctx.proof_leg("PPProofs.Props.C06", THEOREMS, extra_modules=("PPProofs.Props.C06Term", "PPProofs.Props.C06Rec"))
     # generated facts the theorems' hypotheses rest on
     ctx.obligation("And([]).mayIndexError (WFIdx: an empty And carries the flag)", bool(pp.And([]).mayIndexError))
     ctx.obligation("IndexError is not a ParseBaseException", not issubclass(IndexError, pp.ParseBaseException))
